@@ -35,6 +35,8 @@ with warnings.catch_warnings():
 #             "realisations of instants"); a clock fixes the unit and whether the times carry a zone:
 #               naive13  13 h per unit, no zone (the time of day varies from stamp to stamp);
 #               daily    24 h per unit at midnight, no zone: a stamp / read time may be a datetime.date;
+#               noon12   12 h per unit, no zone, alternately noon and midnight: the midnights may be
+#                        datetime.dates, and a publication at noon lies strictly between two dates;
 #               utc5 / west5 / east5   5 h per unit, timezone-AWARE: zone z of the specification is
 #                        UTC + 5 (z + home) hours, home = 0 / -1 / +1, so the zones of one history are
 #                        e.g. New York (-5), UTC, Karachi (+5), and two desks write one instant differently.
@@ -42,8 +44,8 @@ with warnings.catch_warnings():
 _D0 = datetime.datetime(2020, 1, 1)
 NDATES = 128
 ERAS = {'past': datetime.datetime(2021, 6, 1, 6), 'future': datetime.datetime(2101, 6, 1, 6)}
-CLOCKS = {'naive13': (13, None), 'daily': (24, None), 'utc5': (5, 0), 'west5': (5, -1), 'east5': (5, 1)}
-CLOCKS_ONE_ZONE = ('naive13', 'daily', 'utc5', 'naive13', 'west5')    # for histories that use zone 0 only
+CLOCKS = {'naive13': (13, None), 'daily': (24, None), 'noon12': (12, None), 'utc5': (5, 0), 'west5': (5, -1), 'east5': (5, 1)}
+CLOCKS_ONE_ZONE = ('naive13', 'daily', 'utc5', 'noon12', 'west5')     # for histories that use zone 0 only
 CLOCKS_ZONES = ('utc5', 'west5', 'east5')                              # for histories written in several zones
 PALETTES = {
     'whole': lambda k: float(k),                        # 1, 2, 3, ...
@@ -62,7 +64,7 @@ class _Render(object):
         self.era, self.palette, self.clock = era, palette, clock
         self.unit, self.home = CLOCKS[clock]
         self.aware = self.home is not None
-        self.s0 = ERAS[era] if clock != 'daily' else ERAS[era].replace(hour=0)
+        self.s0 = ERAS[era].replace(hour={'daily': 0, 'noon12': 12}.get(clock, 6))
         self.val = {k: PALETTES[palette](k) for k in range(1, 33)}
         self.cell = {v: k for k, v in self.val.items()}
         assert len(self.cell) == len(self.val)
@@ -122,12 +124,21 @@ for _k, _f in (('etc', _tz_etc), ('named', _tz_named), ('pytz', _tz_pytz), ('dat
         pass
 ZKIND_LIST = sorted(ZKINDS)
 STAMP_TYPES = {'naive13': ('dt', 'ts', 'np', 'iso', 'np_ns'), 'daily': ('dt', 'date', 'ts', 'np', 'date', 'iso'),
+               'noon12': ('date', 'dt', 'date', 'ts', 'np'),
                'aware': ('dt', 'ts', 'ts_tz')}
-READ_TYPES = {'naive13': ('dt', 'ts', 'np', 'np_ns'), 'daily': ('dt', 'date', 'ts', 'np', 'np_ns'), 'aware': ('dt', 'ts', 'ts_tz')}
+READ_TYPES = {'naive13': ('dt', 'ts', 'np', 'np_ns'), 'daily': ('dt', 'date', 'ts', 'np', 'np_ns'),
+              'noon12': ('date', 'dt', 'date', 'ts', 'np'), 'aware': ('dt', 'ts', 'ts_tz')}
 
 
 def types_of(table):
     return table['aware' if RENDER.aware else RENDER.clock]
+
+
+def spell_of(w, typ):
+    """the type a written time is really handed over in: a datetime.date can only say a midnight"""
+    if typ == 'date' and time_of(w).time() != datetime.time(0):
+        return 'dt'
+    return typ
 
 
 def when(w, z=0, typ='dt', zkind='fixed'):
@@ -137,8 +148,8 @@ def when(w, z=0, typ='dt', zkind='fixed'):
             raise Machinery('a zone on a naive clock')
         t = time_of(w)
         if typ == 'date':
-            if RENDER.clock != 'daily':
-                raise Machinery('a datetime.date on an intraday clock')
+            if t.time() != datetime.time(0):
+                raise Machinery('a datetime.date for a time that is not a midnight')
             return t.date()
         return {'dt': lambda: t, 'ts': lambda: pd.Timestamp(t), 'np': lambda: np.datetime64(t),
                 'np_ns': lambda: np.datetime64(t, 'ns'), 'iso': lambda: t.isoformat(sep=' ')}[typ]()
@@ -196,7 +207,7 @@ def asof_of(T, spelling, zkind='fixed'):
 def _ev_stamp(e, k=0):
     """the stamp of a history event as the Python object: type and zone library rotate with the position"""
     ty = types_of(STAMP_TYPES)
-    return when(e['w'], e['z'], e.get('stype') or ty[(k + e['s']) % len(ty)],
+    return when(e['w'], e['z'], spell_of(e['w'], e.get('stype') or ty[(k + e['s']) % len(ty)]),
                 e.get('zkind') or ZKIND_LIST[(k + e['w']) % len(ZKIND_LIST)])
 
 
@@ -293,7 +304,7 @@ def _check_reads(store, reads, spell, may_refuse=(), k=0):
     bad = []
     for j, r in enumerate(reads):
         for what in (-1, 0):
-            sp = spell[(j + k + (what == 0)) % len(spell)]
+            sp = spell_of(r['w'], spell[(j + k + (what == 0)) % len(spell)])
             got = read(store, (r['w'], r['z']), what, sp, ZKIND_LIST[(j + k) % len(ZKIND_LIST)])
             ok = ((got['res'] == r['latest'] if what == -1 else got['res'] in r['first']) if got['ok'] == 1
                   else sp in may_refuse)         # an exception only where the specification admits one (DateRefused)
@@ -357,8 +368,8 @@ def _replay_subtree(ix):
         if out['sample'] is None and len(hist) >= 2 and len(distinct) > 2:
             out['sample'] = {'s2c_history': hist, 'expected_reads': reads[-2:],
                              'clock': clock,
-                             'observed': [read(st, (reads[-2]['w'], reads[-2]['z']), -1, spells_r[0]),
-                                          read(st, (reads[-1]['w'], reads[-1]['z']), 0, spells_r[0])]}
+                             'observed': [read(st, (reads[-2]['w'], reads[-2]['z']), -1, 'dt'),
+                                          read(st, (reads[-1]['w'], reads[-1]['z']), 0, 'dt')]}
         for c in kids:
             visit(c, st)
 
@@ -429,11 +440,11 @@ def _history(args):
     seed, hid, big = args
     rng = random.Random(seed)
     era, palette = RENDERINGS[(hid // 2) % len(RENDERINGS)]      # hid % 2 is the tie / notie mode
-    # how the instants are written: 3 of 7 histories without a zone (one of them on whole days, where a
-    # datetime.date will do), 4 of 7 timezone-aware - every stamp and read time in a zone of its own
+    # how the instants are written: 3 of 7 histories without a zone (one of them on whole days, one on
+    # noons and midnights, where a datetime.date will do for a midnight), 4 of 7 timezone-aware - every stamp and read time in a zone of its own
     # choosing ('zones': UTC-10 .. UTC+10, so wall clocks and instants order differently), in UTC
     # only, or all in one zone away from UTC
-    wr = ('naive13', 'zones', 'daily', 'utc', 'zones', 'naive13', 'onezone')[hid % 7]
+    wr = ('naive13', 'zones', 'daily', 'utc', 'zones', 'noon12', 'onezone')[hid % 7]
     RENDER.use(era, palette, wr if wr in CLOCKS else 'utc5')
     zone_pool = {'zones': [-2, -1, 0, 1, 2], 'utc': [0], 'onezone': [rng.choice([-2, -1, 1, 2])]}.get(wr, [0])
     stypes, rtypes = types_of(STAMP_TYPES), types_of(READ_TYPES)
@@ -476,8 +487,8 @@ def _history(args):
         ts = must + rng.sample(rest, min(len(rest), 3 if not big else 4))
         for T in ts:
             for what in ((-1, 0) if rng.random() < 0.5 else (-1,)):
-                sp = rng.choice(('dt',) + rtypes)
                 wz, zk = written(T)
+                sp = spell_of(wz['w'], rng.choice(('dt',) + rtypes))
                 if T > stamps[-1] and rng.random() < 0.3:
                     sp, wz = 'none', {'w': T, 'z': 0}
                 o = read(store, (wz['w'], wz['z']), what, sp, zk)
@@ -506,7 +517,7 @@ def _history(args):
             last.setdefault(d, []).append(c)
         at_stamp.setdefault(s, set()).update(ds)
         wz, zk = written(s)
-        events.append({'op': 'merge', 's': s, **wz, 'v': pairs, 'stype': rng.choice(stypes), 'zkind': zk})
+        events.append({'op': 'merge', 's': s, **wz, 'v': pairs, 'stype': spell_of(wz['w'], rng.choice(stypes)), 'zkind': zk})
         pending.append((_ev_stamp(events[-1]), pairs))
         if len(pending) < 3 and m + 1 < nmerge and rng.random() < 0.15:
             continue                                   # held back: merged together with the next one, in one call
@@ -529,7 +540,7 @@ def _history(args):
             rows = stored_rows(store, s2)
             sub = [r for r in rows if rng.random() < rng.choice([0.2, 0.7, 1.0])] or rows[:1]
             wz, zk = written(s2)                      # the re-merge may write the instant in another zone
-            events.append({'op': 'again', 's': s2, **wz, 'v': sub, 'rows': rows, 'stype': rng.choice(stypes), 'zkind': zk})
+            events.append({'op': 'again', 's': s2, **wz, 'v': sub, 'rows': rows, 'stype': spell_of(wz['w'], rng.choice(stypes)), 'zkind': zk})
             store = merge(store, _ev_stamp(events[-1]), sub)
             feats['again'] += 1
             reads_now()
@@ -658,10 +669,10 @@ def run(ctx):
         sim = ctx.generate('MC_Bitemporal', 'MC_Bitemporal_gen3.cfg', simulate=150 if q else 2000, depth=8,
                            seed=ctx.seed + 17, workers=1)
     s2c(ctx, sim, 'gen3-simulated')
-    with _one_worker():
-        sim = ctx.generate('MC_Bitemporal', 'MC_Bitemporal_gen7.cfg', simulate=40 if q else 800, depth=8,
-                           seed=ctx.seed + 71, workers=1)
-    s2c(ctx, sim, 'gen7-zones-simulated')
+    if not q:
+        with _one_worker():
+            sim = ctx.generate('MC_Bitemporal', 'MC_Bitemporal_gen7.cfg', simulate=800, depth=8, seed=ctx.seed + 71, workers=1)
+        s2c(ctx, sim, 'gen7-zones-simulated')
     # --- C2S ----------------------------------------------------------------------------------
     c2s(ctx, 160 if q else 1500, not q)
     ctx.exhaustive = False
